@@ -110,8 +110,8 @@ func init() {
 		p := c.args[0]
 		nn := vc.freshS(SBV64, "nread")
 		err := vc.freshError(st, "rerr")
-		vc.assume(and(app("bvsle", bvLit(64, 0), nn), app("bvsle", nn, p.C[2]),
-			implies(not(isErr(err)), or(app("bvsge", nn, bvLit(64, 1)), eq(p.C[2], bvLit(64, 0))))))
+		vc.assume(implies(c.n.Reach, and(app("bvsle", bvLit(64, 0), nn), app("bvsle", nn, p.C[2]),
+			implies(not(isErr(err)), or(app("bvsge", nn, bvLit(64, 1)), eq(p.C[2], bvLit(64, 0)))))))
 		vc.noteRead(c.n.Reach, nn)
 		c.streamRead(s, p, nn, constLen(p.C[2]))
 		c.setFail(s, isErr(err))
@@ -145,8 +145,8 @@ func init() {
 		p := c.args[0]
 		nn := vc.freshS(SBV64, "nwritten")
 		err := vc.freshError(st, "werr")
-		vc.assume(and(app("bvsle", bvLit(64, 0), nn), app("bvsle", nn, p.C[2]),
-			implies(app("bvslt", nn, p.C[2]), isErr(err))))
+		vc.assume(implies(c.n.Reach, and(app("bvsle", bvLit(64, 0), nn), app("bvsle", nn, p.C[2]),
+			implies(app("bvslt", nn, p.C[2]), isErr(err)))))
 		c.sinkWrite(w, p, nn, constLen(p.C[2], p.C[3]))
 		st.H["Wfail"] = vc.def(stateSorts["Wfail"], sto(st.H["Wfail"], w, or(sel(st.H["Wfail"], w), isErr(err))), "Wfail")
 		return tupleSV(c.method.Type().(*types.Signature).Results(), &SV{T: intType, C: []string{nn}}, err), true
@@ -165,8 +165,8 @@ func init() {
 		c.vc.oblige("nil-invoke", "io.ReadFull on a nil reader"+c.where(), c.n.Reach, not(eq(r.C[0], bvLit(tidBits, 0))), "@nopanic")
 		nn := vc.freshS(SBV64, "nfull")
 		err := vc.freshError(st, "rferr")
-		vc.assume(and(app("bvsle", bvLit(64, 0), nn), app("bvsle", nn, buf.C[2]),
-			eq(not(isErr(err)), eq(nn, buf.C[2]))))
+		vc.assume(implies(c.n.Reach, and(app("bvsle", bvLit(64, 0), nn), app("bvsle", nn, buf.C[2]),
+			eq(not(isErr(err)), eq(nn, buf.C[2])))))
 		c.streamRead(s, buf, nn, constLen(buf.C[2]))
 		c.setFail(s, isErr(err))
 		return tupleSV(c.fn.Signature.Results(), &SV{T: intType, C: []string{nn}}, err)
